@@ -62,6 +62,10 @@ class NumpyQuantity(Generic[MagnitudeT], PlainQuantity[MagnitudeT]):
             # Only handle ufuncs as callables
             return NotImplemented
 
+        # Operands of different registries are refused, as by the operators.
+        for arg in inputs:
+            self._check(arg)
+
         # Replicate types from __array_function__
         types = {
             type(arg)
